@@ -195,6 +195,7 @@ def check(ix, rep):
     # 4. the sliding-window kernels of once[a,b] / historically[a,b]: merge step over the order domain, influence interval
     from sa.rules import stackstep as SS
     nst = 0
+    ncar = 0
     for nc, opn in (('TimedOnce', 'once'), ('TimedHistorically', 'historically')):
         c = ops.get(nc)
         if c is None:
@@ -204,9 +205,9 @@ def check(ix, rep):
         rep.analysed(f)
         nst += SS.check_function(ix, rep, f, opn, slot_prefix='dense-online:')
         SS.check_build(ix, rep, f, opn, online=True, slot_prefix='dense-online:')
-        rep.undecided('R-OPSUM', f.module.rel, '%s.update' % c.name, 'dense-online:%s:carry' % nc,
-                      'which segments are emitted now and which are carried to the next update (residual_start bookkeeping) is numeric and not decided', f.node.lineno)
+        ncar += SS.check_carry(ix, rep, f, opn, slot_prefix='dense-online:')
     rep.floor('abstract states of the online sliding-window merge step', nst, 36)
+    rep.floor('abstract states of the emit / carry-over split', ncar, 40)
     c = ops.get('TimedSince')
     if c is not None:
         rep.analysed(c.methods['update'])
@@ -225,8 +226,10 @@ def check(ix, rep):
         'state in self across updates. R-SEGSTEP/R-SEGBUILD: the merge step of the once[a,b]/historically[a,b] segment stack is evaluated on '
         'every ordering of the segment ends and values consistent with the stack invariant (pop soundness, contiguity, pointwise value, '
         'monotonicity), and the influence interval of sample k is (T[k]+begin, T[k+1]+end, V[k]) in affine normal form; R-COMPOSE: '
-        'since[a,b] = once[a,b](right) and historically[0,a](left since right) in update() and update_final(). NOT decided: which segments '
-        'are emitted in this update and which are carried over (residual_start), the untimed since, and the `last` bookkeeping of the kernel.')
+        'since[a,b] = once[a,b](right) and historically[0,a](left since right) in update() and update_final(). R-CARRY: after the merge every '
+        'segment is split at the time of the last input sample -- evaluated on the five orderings of that time against the segment ends: the '
+        'part up to it is emitted, the part beyond it is carried to the next update, nothing is lost or carried twice. NOT decided: the '
+        'untimed since, the `last` bookkeeping of the kernel\'s remainder loops, the provisional end of the last influence interval across updates.')
     assumptions = ['observed while probing and outside static reach: once[0,1](a>=2) fed sample by sample differs from the whole-signal run at one instant; '
                    'no structural rule separates that code from a correct one, so it is documented in DESIGN.md and not claimed']
     return explanation, assumptions, 'one instance per sibling and method, per ordering, per summarised operator', {'exhaustive': True}
